@@ -188,6 +188,8 @@ func (g *c10Gen) input() c10Input {
 			"tail " + f + " regex:noop ", "cat " + f + " regex:noop ", "grep " + f + " regex:default line",
 			"tail:plain=true " + g.files[1] + " regex:noop ", "cat:quiet=true " + g.dir + "/*.log regex:noop ",
 			"cat " + g.dir + "/many/*.log regex:noop ", "grep " + g.dir + "/many/m*.log regex:default one",
+			"cat " + g.dir + "/cut.gz regex:noop ", "cat " + g.dir + "/cut.zst regex:noop ", "grep " + g.dir + "/cut.gz regex:default STATS",
+			"cat " + g.dir + "/garbage.gz regex:noop ", "cat " + g.dir + "/zero.zst regex:noop ", "tail " + g.dir + "/cut.gz regex:noop ",
 			"map select count($line) from STATS group by $hostname", "map from STATS select count($line),max($goroutines) group by $hostname interval 1",
 			"map " + g.queries[rng.Intn(len(g.queries))], ".ack close connection", "grep:max=1:after=2 " + f + " regex:invert two",
 		}
@@ -251,6 +253,23 @@ func c10(r *vlib.Run) int {
 	for k := 0; k < 250; k++ {
 		os.WriteFile(filepath.Join(dir, "many", fmt.Sprintf("m%03d.log", k)), []byte(fmt.Sprintf("file %d line one\n", k)), 0644)
 	}
+	// compressed files whose stream breaks in the middle (the reader fails while
+	// lines are still in the pipeline), and files that are not what their name says
+	var stats bytes.Buffer
+	for k := 0; k < 6000; k++ {
+		fmt.Fprintf(&stats, "INFO|1002-071209|1|m.go:1|8|14|7|0.21|471h|MAPREDUCE:STATS|a=%d|b=%d\n", k%7, k)
+	}
+	var broken []string
+	for _, ext := range []string{".gz", ".zst"} {
+		whole := compress(ext, stats.Bytes())
+		cut := filepath.Join(dir, "cut"+ext)
+		os.WriteFile(cut, whole[:len(whole)*2/3], 0644)
+		garbage := filepath.Join(dir, "garbage"+ext)
+		os.WriteFile(garbage, []byte("not compressed data\n"), 0644)
+		empty := filepath.Join(dir, "zero"+ext)
+		os.WriteFile(empty, nil, 0644)
+		broken = append(broken, cut, garbage, empty)
+	}
 	rngq := r.Rng("queries")
 	var queries []string
 	for i := 0; i < 300; i++ {
@@ -258,9 +277,9 @@ func c10(r *vlib.Run) int {
 		q := mq.GenQuery(rngq, t)
 		queries = append(queries, q.Render(&mq.Style{Rng: rngq}))
 	}
-	g := &c10Gen{rng: r.Rng("inputs"), files: []string{f1, f2}, dir: dir, queries: queries}
+	g := &c10Gen{rng: r.Rng("inputs"), files: append([]string{f1, f2}, broken...), dir: dir, queries: queries}
 	n := r.N(5000, 250000)
-	inputs := append(make([]c10Input, 4), c10Probes(f1)...) // the first 4 are overwritten below
+	inputs := append(make([]c10Input, 8), c10Probes(f1)...) // the first 8 are overwritten below
 	for len(inputs) < n {
 		inputs = append(inputs, g.input())
 	}
@@ -274,6 +293,14 @@ func c10(r *vlib.Run) int {
 				cmd = "grep " + dir + "/many/m*.log regex:default one"
 			}
 			inputs[i] = c10Input{Hex: fmt.Sprintf("%x", encodeCommand(cmd)), Class: "valid-sequence/many-file-glob"}
+		}
+	}
+	// mapreduce sessions over a compressed file whose stream breaks
+	for i := range inputs {
+		if k := i % 400; k >= 4 && k < 8 {
+			f := []string{"/cut.gz", "/cut.zst", "/cut.gz", "/garbage.gz"}[k-4]
+			q := []string{"map select count($line) from STATS group by a", "map from STATS select count($line),max(b) group by a interval 1"}[k%2]
+			inputs[i] = c10Input{Hex: fmt.Sprintf("%x", encodeCommand(q)+encodeCommand("cat "+dir+f+" regex:noop ")), Class: "valid-sequence/map,cat-broken-compressed-file"}
 		}
 	}
 	cases := make([]interface{}, len(inputs))
